@@ -216,9 +216,8 @@ func fmtDirs(ctl string) string {
 
 var longNumber = regexp.MustCompile(`[0-9]{7,}`)
 
-// fmtRisk recognises the two families of control strings that do not end (or
-// end in memory exhaustion) on the pinned tree and therefore are not
-// generated; see the fmt entries in skiptable.go.
+// fmtRisk recognises control strings that are not generated because the
+// language itself makes them (nearly) endless.
 func fmtRisk(ctl string, args []string) string {
 	ds := parseDirs(ctl)
 	hugeArg := false
@@ -227,29 +226,29 @@ func fmtRisk(ctl string, args []string) string {
 			hugeArg = true
 		}
 	}
-	zeroArg := false
-	for _, a := range args {
-		if a == "zero" {
-			zeroArg = true
-		}
-	}
+	// Sizes: since 62dc4c3 a directive parameter beyond 2^24 is refused and a
+	// column increment of 0 is handled, so both are generated. What stays out
+	// is the product of large parameters (a large count inside an iteration or
+	// two large counts in one control string): bounded, but by up to 2^48.
+	huge := 0
+	inIter := 0
 	for _, d := range ds {
-		// ~mincol,0A and ~mincol,0S: a column increment of 0 never reaches mincol
-		if d.ch == 'A' || d.ch == 'S' {
-			if f := strings.Split(d.params, ","); 2 <= len(f) {
-				inc := strings.TrimLeft(f[1], "+-0")
-				if f[1] != "" && (inc == "" || ((f[1] == "v" || f[1] == "V") && zeroArg) || f[1] == "#") {
-					return "fmt-colinc-zero"
-				}
+		switch d.ch {
+		case '{':
+			inIter++
+		case '}':
+			if 0 < inIter {
+				inIter--
 			}
 		}
-	}
-	for _, d := range ds {
-		if strings.IndexByte(fmtHugeDirs, d.ch) < 0 || d.ch == 0 {
+		if strings.IndexByte(fmtHugeDirs+"{", d.ch) < 0 || d.ch == 0 {
 			continue
 		}
 		if longNumber.MatchString(d.params) || (hugeArg && strings.ContainsAny(d.params, "vV")) {
-			return "fmt-huge-parameter"
+			huge++
+			if 0 < inIter || 1 < huge {
+				return "by-definition:fmt-product-of-huge-parameters"
+			}
 		}
 	}
 	// iterations: a body that consumes no argument, or any ~* jump, can
